@@ -58,6 +58,17 @@ class Sink:
         self.ctx.count(key, n)
 
 
+def approx_equal(a, b):
+    """equality of canonical results up to the last bits of float values: several additive effects on one fluent are summed
+    in the iteration order of an identity-hashed set, and float addition is not associative (a difference in the 15th
+    digit is not a different result)"""
+    if isinstance(a, float) and isinstance(b, float):
+        return a == b or abs(a - b) <= 1e-12 * max(abs(a), abs(b))
+    if isinstance(a, tuple) and isinstance(b, tuple):
+        return len(a) == len(b) and all(approx_equal(x, y) for x, y in zip(a, b))
+    return a == b
+
+
 def canon_result(res):
     n = type(res).__name__
     if n == "State":
@@ -145,7 +156,7 @@ class History:
                 new = ("raised", type(e).__name__)
             self.ctx.count("replays_compared")
             self.replays += 1
-            if new != old:
+            if not approx_equal(new, old):
                 kind = "raise-vs-return" if (isinstance(new, tuple) and new[:1] == ("raised",)) != (isinstance(old, tuple) and old[:1] == ("raised",)) else "different-result"
                 self.ctx.violation(f"replay:{kind}:{label.split('(')[0]}",
                                    {"call": label, "first": str(old)[:700], "again": str(new)[:700],
@@ -443,7 +454,7 @@ def run_threads(ctx, rng, n_threads, n_calls, p_yield):
     for i in range(n_threads):
         for j, (e, g) in enumerate(zip(expected[i], results[i] or [])):
             ctx.count("thread_calls_compared")
-            if e != g:
+            if not approx_equal(e, g):
                 an, call, st, kind = seqs[i][j]
                 ctx.violation("threads:result-differs-from-sequential-run",
                               {"thread": i, "call_index": j, "call": f"{kind}({an} {' '.join(call)})", "sequential": str(e)[:500],
